@@ -124,6 +124,9 @@ class Ctx:
         return self.tier == "thorough"
 
     def finish_rules(self) -> None:
+        """Fail closed on a vacuous rule — unless a violation was already established (that verdict stands)."""
+        if self.findings():
+            return
         for r in self.rules:
             if len(r.instances) < r.min_instances:
                 raise AnalysisError(
